@@ -56,6 +56,7 @@ Fixpoint calls {A} (m : act A) (st : store) : nat :=
   match m with
   | Done _ => O
   | Call ops k => S (calls (k (snd (apply_ops ops st))) (fst (apply_ops ops st)))
+  | Block => O
   end.
 
 (* requests pending in a store: queued ones plus listed dispatched ones *)
